@@ -26,7 +26,7 @@ ASSUMPTIONS = [
     "The stream position after a FAILING dereference is not constrained (the statement is silent).",
     "Reference for a dereference = the library's own stand-alone parse of the target type from image[address:].",
 ]
-REAL = ["dissect.cstruct Pointer, readers (compiled/interpreted)", "io.BytesIO"]
+REAL = ["dissect.cstruct Pointer, readers (compiled/interpreted)", "io.BytesIO", "bytes/bytearray/memoryview inputs (buffer entry points)"]
 STUBS = ["SimStream (logging seekable stream) for half of the cases"]
 
 SC = ["uint8", "int8", "uint16", "int16", "uint32", "int32", "uint64", "int64", "uint24", "float"]
@@ -67,7 +67,8 @@ def gen_case(rng: random.Random, tier: str):
             r = rng.random()
             cls = "valid" if r < 0.62 else ("null" if r < 0.74 else ("dangling" if r < 0.86 else ("edge" if r < 0.93 else "root")))
             slots.append({"f": f["name"], "j": j, "cls": cls, "r": rng.getrandbits(24)})
-    ops = [{"op": "parse"}]
+    ops = [{"op": "parse", "buf": rng.choice([None, None, "bytes", "bytearray", "memoryview", "memoryview-of-bytearray"]),
+            "form": rng.choice(["call", "reads", "read"])}]
     for _ in range(rng.randint(3, 14)):
         r = rng.random()
         s = rng.randrange(len(slots))
@@ -244,8 +245,10 @@ def run_case(case, stats):
             v = v[sl["j"]]
         return v
 
-    def check_deref(p, f, depth, addr, label):
+    def check_deref(p, f, depth, addr, label, img=None):
         """dereference pointer object p (expected target type f['t'] at depth) and compare with the reference."""
+        own = img is None  # img given: the pointer came out of a parse of a bytes-like object holding img
+        img = image if own else img
         before = stream.tell()
         try:
             v = p.dereference()
@@ -258,7 +261,7 @@ def run_case(case, stats):
         if addr == 0:
             exp = ("exc", "NullPointerDereference")
         else:
-            exp = _target_ref(cs_ref, f["t"], depth, image, addr)
+            exp = _target_ref(cs_ref, f["t"], depth, img, addr)
         stats.count("evaluations")
         if got[0] == "exc":
             stats.count("fault.deref_raised_" + got[1])
@@ -297,6 +300,25 @@ def run_case(case, stats):
                                                                f"as unsigned {order} {w}-byte = {expv}")
             cur, cur_at = r, at
             since_parse_stream_ops = 0
+            if op.get("buf"):
+                # the buffer entry points: the same root bytes at offset 0 of a bytes-like object (addresses are absolute
+                # offsets into that object); every pointer of the result is followed
+                bi = bytearray(image)
+                bi[0:rsize] = image[at:at + rsize]
+                bi = bytes(bi)
+                arg = {"bytes": bi, "bytearray": bytearray(bi), "memoryview": memoryview(bi), "memoryview-of-bytearray": memoryview(bytearray(bi))}[op["buf"]]
+                try:
+                    rb = {"call": R, "reads": R.reads, "read": R.read}[op.get("form", "call")](arg)
+                except Exception as e:  # noqa: BLE001
+                    raise Violation("width", "root_parse_raised", f"root parsed from a {op['buf']} object via {op.get('form')}: {type(e).__name__}: {e}")
+                stats.count("probe.root_parsed_from_" + op["buf"])
+                for sl in case["slots"]:
+                    pb = ptr_of(rb, sl)
+                    f_ = fmap[sl["f"]]
+                    ab = int.from_bytes(bi[offs[sl["f"]] + sl["j"] * w: offs[sl["f"]] + sl["j"] * w + w], order, signed=False)
+                    if not isinstance(pb, Pointer) or int.__index__(pb) != ab:
+                        raise Violation("width", "pointer_value", f"{sl['f']}[{sl['j']}] parsed from a {op['buf']} object = {pb!r}, expected {ab}")
+                    check_deref(pb, f_, f_["depth"], ab, f"{sl['f']}[{sl['j']}] of a root parsed from a {op['buf']} object via {op.get('form')}", img=bi)
         elif cur is None:
             continue
         elif k == "chain":
